@@ -68,6 +68,8 @@ AUTO = {  # property -> (category, trusted base / bounds, technique)
          "TLA+ framing automata + TLC exhaustive; case replay through the real tunnel, wrapper and relay; TLC trace validation"),
  "C19": ("model_checking", "Trusted: TLC, synctest time. Counter model exhaustive at scaled units; recorded histories validated at the real constants.",
          "TLA+ specs + TLC exhaustive; TLC validation of recorded counter histories at real constants; quota-case replay on real muxes"),
+ "C10": ("exploration", "Trusted: TLC (generator and monitor), reference codec, the supervisor's reading of the child's exit. This is directed exploration of an unbounded input language, not a proof: field classes are boundary values, 1-3 lying fields per unit, 24 steps per behaviour; quick tier 32 behaviours and ~1800 SOCKS5 units, thorough tier 600 behaviours and every enumerated SOCKS5 class member in every world. One genuine defect (cross-user session id panic) found and fixed.",
+         "TLA+ input-language specs; TLC-simulated / enumerated hostile inputs replayed against real endpoints in a supervised child process; TLC validation of the event streams"),
  "C20": ("model_checking", "Trusted: TLC. Field values inside a class are adversarial samples; the set of fields is the model's.",
          "TLA+ merge spec + TLC; case replay through the real store / patch / link functions on both file formats; TLC trace validation"),
 }
